@@ -32,7 +32,7 @@ def _ir():
 _LOCKED_CLS = None
 
 
-def locked_tensor():
+def locked_tensor(name=None):
     """A TensorProtocol implementation whose `name` cannot be assigned (read-only property): renaming a
     value backed by it raises inside `Value.name = ...` at the point where the tensor is renamed."""
     global _LOCKED_CLS
@@ -53,7 +53,47 @@ def locked_tensor():
                 raise AttributeError("this tensor's name is read-only")
 
         _LOCKED_CLS = LockedTensor
-    return _LOCKED_CLS(np.array([1.0], dtype=np.float32))
+    return _LOCKED_CLS(np.array([1.0], dtype=np.float32), name=name)
+
+
+_RAUW_MANY_ATOMIC = None
+
+
+def rauw_many_is_atomic() -> bool:
+    """Probe of the real `convenience.replace_all_uses_with`: does a rejected later pair leave the earlier pairs
+    unapplied (proposed fix D82-exact)?  Decides which of the two model functions (`rauwMany` = the sequential loop,
+    `rauwManyExact` = checked against the simulated ownership first) the multi-pair call is compared with."""
+    global _RAUW_MANY_ATOMIC
+    if _RAUW_MANY_ATOMIC is None:
+        import onnx_ir.convenience as conv
+
+        ir = _ir()
+        a, b, c = ir.Value(name="a"), ir.Value(name="b"), ir.Value(name="c")
+        user = ir.Node("", "Id", [a])
+        o = user.outputs[0]
+        g = ir.Graph([a], [o], nodes=[user])
+        try:
+            conv.replace_all_uses_with([a, o], [b, c], replace_graph_outputs=False)
+        except ValueError:
+            pass
+        _RAUW_MANY_ATOMIC = user.inputs[0] is a and len(list(g)) == 1
+    return _RAUW_MANY_ATOMIC
+
+
+def tape_spelling(op: dict):
+    """How a `newNode` call is spelled through `Tape.op` / `Tape.op_multi_out` (None: plain `ir.Node(...)`)."""
+    if op.get("via") != "tape" or op.get("badAttr") or op.get("attrGraphs") or op.get("attrGraphsList") or op.get("attrPlain"):
+        return None
+    num, outs = op["numOutputs"], op["outputs"]
+    if outs is None and num in (None, 1):
+        return "op"
+    if outs is not None and len(outs) == 1 and num is None:
+        return "op-output"
+    if outs is None and num is not None:
+        return "multi-num"
+    if outs is not None and num is None:
+        return "multi-outputs"
+    return None
 
 
 # --------------------------------------------------------------------------- real world
@@ -62,7 +102,11 @@ def locked_tensor():
 class Real:
     """The real objects, in creation order."""
 
-    def __init__(self) -> None:
+    def __init__(self, model_sort: bool = False) -> None:
+        # model_sort: `sort` is sent to the model as `{"op": "sort", "g": g}` (the model computes the sort itself, C12's
+        # sort model on the tree it reads off its own state).  Default (other users of this class, e.g. C20's kernel
+        # stream): the round-1 form `sortOk orders` with the orders read from the real objects after the call.
+        self.model_sort = model_sort
         self.vals: list = []
         self.nodes: list = []
         self.graphs: list = []
@@ -111,6 +155,21 @@ class Real:
             self.funcs[g] = _ir().Function("dom", f"f{g}", graph=self.graphs[g], attributes=[])
         return self.funcs[g]
 
+    def attr_gs(self, a) -> list:
+        """graph ids an attribute holds (GRAPH: one, GRAPHS: several, anything else: none)"""
+        t = a.type.name
+        if t == "GRAPH":
+            return [self.gid.get(id(a.value), -1)]
+        if t == "GRAPHS":
+            return [self.gid.get(id(x), -1) for x in a.value]
+        return []
+
+    def graph_like(self, g, func=False):
+        """what a Tape / Builder is bound to: nothing, a graph, or the `ir.Function` wrapping it"""
+        if g is None:
+            return None
+        return self.GF({"g": g, "via": "function"}) if func else self.graphs[g]
+
     def Vs(self, ids):
         return [self.vals[i] for i in ids]
 
@@ -121,9 +180,10 @@ class Real:
     def apply(self, op: dict) -> tuple[str, str, dict]:
         """Returns (outcome, exception kind, the operation as the model takes it)."""
         self.where = ""
+        self._mop = None  # the operation as the model takes it, when it differs from `op` (set before the call)
         try:
             mop = self._apply(op)
-            return "ok", "", mop or op
+            return "ok", "", mop or self._mop or op
         except RAISES as e:
             # innermost library function on the traceback (names the sub-step of a composite call that raised)
             tb, names = e.__traceback__, []
@@ -137,7 +197,11 @@ class Real:
                     break
             else:
                 self.where = names[-1] if names else ""
-            mop = {"op": "sortCycle"} if op["op"] in ("sort", "newNode") and (op["op"] == "sort" or op.get("badAttr")) else op
+            # a non-Attr attribute is a type-incorrect argument: the (typed) model only knows that the call is rejected
+            if (op["op"] == "newNode" and op.get("badAttr")) or (op["op"] == "sort" and not self.model_sort):
+                mop = {"op": "sortCycle"}
+            else:
+                mop = self._mop or op
             return "raised", type(e).__name__, mop
 
     def _io(self, op):
@@ -164,27 +228,118 @@ class Real:
             attrs = [ir.AttrGraph(f"body{j}", self.graphs[gi]) for j, gi in enumerate(op.get("attrGraphs", []))]
             if op.get("attrGraphsList"):
                 attrs.append(ir.AttrGraphs("branches", [self.graphs[gi] for gi in op["attrGraphsList"]]))
+            if op.get("attrPlain"):
+                attrs.append(ir.AttrInt64("alpha", 7))
+            mattrs = [[a.name, self.attr_gs(a)] for a in attrs]
             if op.get("badAttr"):
                 attrs = attrs + [object()]  # not an Attr: must be rejected before the outputs are claimed
             graph = None if op.get("graph") is None else self.graphs[op["graph"]]
-            n = ir.Node(
-                "", op["opType"], ins, attrs, num_outputs=op["numOutputs"], outputs=outs, name=op["name"], graph=graph
-            )
+            spell = tape_spelling(op)
+            if spell is not None:
+                from onnx_ir import _tape
+
+                tape = _tape.Tape(self.graph_like(op.get("graph"), op.get("tapeFunc")))
+                if spell == "op":
+                    tape.op(op["opType"], ins, name=op["name"])
+                elif spell == "op-output":
+                    tape.op(op["opType"], ins, name=op["name"], output=outs[0])
+                elif spell == "multi-num":
+                    tape.op_multi_out(op["opType"], ins, num_outputs=op["numOutputs"], name=op["name"])
+                else:
+                    tape.op_multi_out(op["opType"], ins, outputs=outs, name=op["name"])
+                n = tape.nodes[-1]
+            else:
+                n = ir.Node(
+                    "", op["opType"], ins, attrs, num_outputs=op["numOutputs"], outputs=outs, name=op["name"], graph=graph
+                )
             self.attr_graphs.update(op.get("attrGraphs", []))
             self.attr_graphs.update(op.get("attrGraphsList", []))
             self.reg_node(n)
             for o in n.outputs:
                 self.reg_val(o)
+            return {**op, "attrs": mattrs} if mattrs else None
         elif k == "attrEdit":
-            n = self.nodes[op["n"]]
+            n, key, spell = self.nodes[op["n"]], op["key"], op.get("spell")
+            d = n.attributes
+            a = None
             if op.get("graphs") is not None:
-                n.attributes[op["key"]] = ir.AttrGraphs(op["key"], [self.graphs[gi] for gi in op["graphs"]])
+                a = ir.AttrGraphs(key, [self.graphs[gi] for gi in op["graphs"]])
                 self.attr_graphs.update(op["graphs"])
             elif op.get("graph") is not None:
-                n.attributes[op["key"]] = ir.AttrGraph(op["key"], self.graphs[op["graph"]])
+                a = ir.AttrGraph(key, self.graphs[op["graph"]])
                 self.attr_graphs.add(op["graph"])
+            elif op.get("plain"):
+                a = ir.AttrInt64(key, 7)
+            if a is not None:
+                self._mop = {"op": "attrSet", "n": op["n"], "key": key, "gs": self.attr_gs(a)}
+                if spell == "add":
+                    d.add(a)
+                elif spell == "update":
+                    d.update({key: a})
+                elif spell == "ior":
+                    d |= {key: a}
+                elif spell == "setdefault" and key not in d:
+                    d.setdefault(key, a)
+                else:
+                    d[key] = a
+            elif op.get("clear"):
+                self._mop = {"op": "attrClear", "n": op["n"]}
+                d.clear()
+            elif spell == "popitem":
+                # MutableMapping.popitem (UserDict): removes the FIRST key (`next(iter(self))`), unlike dict.popitem
+                keys = list(d.keys())
+                self._mop = {"op": "attrDel", "n": op["n"], "key": keys[0] if keys else "", "strict": True}
+                d.popitem()
+            elif spell in ("del", "pop"):
+                self._mop = {"op": "attrDel", "n": op["n"], "key": key, "strict": True}
+                if spell == "del":
+                    del d[key]
+                else:
+                    d.pop(key)
             else:
-                n.attributes.pop(op["key"], None)
+                self._mop = {"op": "attrDel", "n": op["n"], "key": key, "strict": False}
+                d.pop(key, None)
+        elif k == "setNodeName":
+            self.nodes[op["n"]].name = op["s"]
+        elif k == "setOpType":
+            self.nodes[op["n"]].op_type = op["s"]
+        elif k == "clearConst":
+            self.vals[op["v"]].const_value = None
+        elif k == "tapeInitializer":
+            import numpy as np
+
+            from onnx_ir import _tape
+
+            t = (locked_tensor(op.get("tname")) if op.get("locked")
+                 else ir.Tensor(np.array([1.0], dtype=np.float32), name=op.get("tname")))
+            tape = _tape.Tape(self.graph_like(op.get("g"), op.get("func")))
+            self._mop = {**op, "g": None if op.get("func") else op.get("g")}
+
+            def created():
+                # the value exists as soon as the tape made it (also when the graph then refuses to register it)
+                if tape.initializers:
+                    if op.get("locked"):
+                        self.locked.add(id(t))
+                    self.tid[id(t)] = len(self.tensors)
+                    self.tensors.append(t)
+                    self.reg_val(tape.initializers[-1])
+
+            try:
+                tape.initializer(t, op.get("name"))
+            except RAISES:
+                created()
+                raise
+            created()
+        elif k == "builderNode":
+            from onnx_ir import _tape
+
+            b = _tape.Builder(self.graph_like(op.get("g"), op.get("func")))
+            outs = list(op["names"]) if op.get("names") is not None else op["k"]
+            getattr(b, op["opType"])(*[self.V(i) for i in op["inputs"]], _outputs=outs)
+            n = b.nodes[-1]
+            self.reg_node(n)
+            for o in n.outputs:
+                self.reg_val(o)
         elif k == "newValueProd":
             self.reg_val(ir.Value(self.nodes[op["n"]], index=op["i"], name=op["name"]))
         elif k == "newGraph":
@@ -232,6 +387,9 @@ class Real:
                 lst += self.Vs(op["vs"])
             elif m == "imul":
                 lst *= op["k"]
+            elif m == "sort":
+                keys = op["keys"]
+                lst.sort(key=lambda v: keys[self.vid[id(v)]] if self.vid[id(v)] < len(keys) else 0, reverse=op["rev"])
             else:
                 raise NotImplementedError(m)
         elif k == "init":
@@ -277,12 +435,14 @@ class Real:
                 g.insert_before(a, arg)
         elif k == "remove":
             ns = self.Ns(op["ns"])
-            arg = ns[0] if op.get("single") and len(ns) == 1 else ns
+            arg = ns[0] if op.get("single") and len(ns) == 1 else iter(ns) if op.get("iter") else ns
             self.GF(op).remove(arg, safe=op["safe"])
         elif k == "rauwMany":
             import onnx_ir.convenience as conv
 
             vs, rs = self.Vs(op["vs"]), self.Vs(op["rs"])
+            if rauw_many_is_atomic():
+                self._mop = {**op, "exact": True}
             if op.get("single") and len(vs) == 1 and len(rs) == 1:
                 conv.replace_all_uses_with(vs[0], rs[0], replace_graph_outputs=op["rgo"])
             else:
@@ -298,6 +458,8 @@ class Real:
         elif k == "replaceNodesAndValues":
             import onnx_ir.convenience as conv
 
+            if rauw_many_is_atomic():
+                self._mop = {**op, "exact": True}
             conv.replace_nodes_and_values(
                 self.GF(op),
                 self.nodes[op["ip"]],
@@ -309,11 +471,16 @@ class Real:
         elif k == "sort":
             import onnx_ir.traversal as tr
 
-            g = self.graphs[op["g"]]
-            involved = list(dict.fromkeys(id(n.graph) for n in tr.RecursiveGraphIterator(g) if n.graph is not None))
-            self.GF(op).sort()
-            orders = [[self.gid[gi], [self.nid[id(n)] for n in self.graphs[self.gid[gi]]]] for gi in involved]
-            return {"op": "sortOk", "orders": orders, "g": op["g"]}
+            if self.model_sort:
+                # the model computes the sort itself (C12's sort model on the tree it reads off its own state)
+                self._mop = {"op": "sort", "g": op["g"]}
+                self.GF(op).sort()
+            else:
+                g = self.graphs[op["g"]]
+                involved = list(dict.fromkeys(id(n.graph) for n in tr.RecursiveGraphIterator(g) if n.graph is not None))
+                self.GF(op).sort()
+                orders = [[self.gid[gi], [self.nid[id(n)] for n in self.graphs[self.gid[gi]]]] for gi in involved]
+                return {"op": "sortOk", "orders": orders, "g": op["g"]}
         else:
             raise NotImplementedError(k)
         return None
@@ -353,6 +520,7 @@ class Real:
                     "graph": self._g(n.graph),
                     "name": n.name,
                     "opType": n.op_type,
+                    "attrs": [[k_, self.attr_gs(a)] for k_, a in n.attributes.items()],
                 }
             )
         graphs = []
@@ -502,7 +670,7 @@ def wf_oracle(real: Real) -> list[str]:
 # --------------------------------------------------------------------------- C06 oracle
 
 
-def deep_snapshot(real: Real) -> Any:
+def deep_snapshot(real: Real, limit: tuple | None = None) -> Any:
     """Every public accessor of every registered object (+ the name authority, whose state decides later
     generated names, and the tracked lists' reference counters, which decide when a later removal clears an
     ownership flag). Separate implementation from `Real.snapshot`."""
@@ -517,8 +685,9 @@ def deep_snapshot(real: Real) -> Any:
     def G(x):
         return None if x is None else ("g", ix_g.get(id(x), id(x)))
 
+    nv, nn, ng = limit or (len(real.vals), len(real.nodes), len(real.graphs))
     out = []
-    for v in real.vals:
+    for v in real.vals[:nv]:
         cv = v.const_value
         out.append(
             (
@@ -540,7 +709,7 @@ def deep_snapshot(real: Real) -> Any:
                 repr(sorted(dict(v.meta).items(), key=repr)),
             )
         )
-    for n in real.nodes:
+    for n in real.nodes[:nn]:
         out.append(
             (
                 "N",
@@ -566,7 +735,7 @@ def deep_snapshot(real: Real) -> Any:
                 tuple(N(x) for x in n.successors()),
             )
         )
-    for g in real.graphs:
+    for g in real.graphs[:ng]:
         na = g._name_authority
         out.append(
             (
@@ -613,8 +782,10 @@ class Gen:
     """Random operations over the current real state. Ids always denote existing objects of the right
     class (the model is typed); everything else may be invalid on purpose."""
 
-    def __init__(self, rng: random.Random, real: Real, p_invalid: float = 0.3):
-        self.rng, self.real, self.p_invalid = rng, real, p_invalid
+    def __init__(self, rng: random.Random, real: Real, p_invalid: float = 0.3, extended: bool = False):
+        # extended: also generate the calls added in round 3 (Node.name=, op_type=, const_value=None, list.sort, every
+        # attribute-dict mutator, Tape / Builder, one-shot iterators for remove, a node listed twice)
+        self.rng, self.real, self.p_invalid, self.extended = rng, real, p_invalid, extended
         self.focus: dict | None = None  # after a rejected call: keep working on the same container and value
 
     def after(self, op: dict, outcome: str) -> None:
@@ -764,8 +935,13 @@ class Gen:
             (self.init, 6 if ng else 0),
             (self.membership, 6 if ng and nn else 0),
             (self.remove, 2 if ng and nn else 0),
-            (self.sort, 1 if ng and nn else 0),
-            (self.attr_edit, 1 if ng and nn else 0),
+            (self.sort, (2 if self.extended else 1) if ng and nn else 0),
+            (self.attr_edit, (2 if self.extended else 1) if ng and nn else 0),
+            (self.set_node_name, 1.5 if nn and self.extended else 0),
+            (self.set_op_type, 0.7 if nn and self.extended else 0),
+            (self.clear_const, 0.5 if self.extended else 0),
+            (self.tape_initializer, 1.2 if nv < MAX_VALUES and self.extended else 0),
+            (self.builder_node, 1.2 if nn < MAX_NODES and nv < MAX_VALUES - 2 and self.extended else 0),
             (self.new_value_prod, 0.15 if nn and nv < MAX_VALUES else 0),
             (self.rauw_many, 2),
             (self.rename_values, 3),
@@ -785,11 +961,72 @@ class Gen:
         n = self.node()
         gs = list(range(len(real.graphs)))
         r = rng.random()
-        op = {"op": "attrEdit", "n": n, "key": rng.choice(["body0", "branches", "extra"])}
-        if r < 0.4:
+        if not self.extended:
+            op = {"op": "attrEdit", "n": n, "key": rng.choice(["body0", "branches", "extra"])}
+            if r < 0.4:
+                op["graph"] = rng.choice(gs)
+            elif r < 0.75:
+                op["graphs"] = [rng.choice(gs) for _ in range(rng.choice([1, 2]))]
+            return op
+        present = list(real.nodes[n].attributes.keys())
+        op = {"op": "attrEdit", "n": n, "key": rng.choice(["body0", "branches", "extra", "alpha"] + present)}
+        if r < 0.3:
             op["graph"] = rng.choice(gs)  # may be a graph already held by another attribute (shared)
-        elif r < 0.75:
+        elif r < 0.55:
             op["graphs"] = [rng.choice(gs) for _ in range(rng.choice([1, 2]))]
+        elif r < 0.65:
+            op["plain"] = True
+        elif r < 0.7:
+            op["clear"] = True
+            return op
+        if r < 0.65:
+            op["spell"] = rng.choice(["setitem", "setitem", "add", "update", "ior", "setdefault"])
+        else:
+            op["spell"] = rng.choice(["pop-default", "pop-default", "del", "pop", "popitem"])
+        return op
+
+    def set_node_name(self):
+        n = self.node()
+        g = self.real.nodes[n].graph
+        taken = sorted(g._name_authority._node_names) if g is not None else []
+        return {"op": "setNodeName", "n": n, "s": self.rng.choice(NODE_NAME_POOL + taken[:3] + [None, None, "node_Id_0"])}
+
+    def set_op_type(self):
+        return {"op": "setOpType", "n": self.node(), "s": self.rng.choice(OP_TYPES)}
+
+    def clear_const(self):
+        with_const = [i for i, v in enumerate(self.real.vals) if v.const_value is not None]
+        v = self.rng.choice(with_const) if with_const and self.rng.random() < 0.8 else self.any_val()
+        return {"op": "clearConst", "v": v}
+
+    def tape_initializer(self):
+        rng, real = self.rng, self.real
+        keys = [k for g in real.graphs for k in g.initializers.keys()]
+        op = {
+            "op": "tapeInitializer",
+            "g": rng.randrange(len(real.graphs)) if real.graphs and rng.random() < 0.8 else None,
+            "name": rng.choice(NAME_POOL + keys + [None, None]),
+            "tname": rng.choice([None, None, "t", "w", ""] + keys),
+        }
+        if rng.random() < 0.25:
+            op["locked"] = True
+        if op["g"] is not None and rng.random() < 0.2:
+            op["func"] = True  # a tape bound to a Function does not register initializers
+        return op
+
+    def builder_node(self):
+        rng, real = self.rng, self.real
+        ins = [None if rng.random() < 0.15 else self.any_val() for _ in range(rng.choice([0, 1, 2, 2]))]
+        k = rng.choice([1, 1, 2, 0, 3])
+        op = {
+            "op": "builderNode",
+            "g": rng.randrange(len(real.graphs)) if real.graphs and rng.random() < 0.85 else None,
+            "opType": rng.choice(OP_TYPES), "inputs": ins, "k": k, "names": None,
+        }
+        if rng.random() < 0.6:
+            op["names"] = [rng.choice(NAME_POOL[:-1] + ["val_3", "o"]) for _ in range(k)]
+        if op["g"] is not None and rng.random() < 0.2:
+            op["func"] = True
         return op
 
     def new_value_prod(self):
@@ -842,6 +1079,14 @@ class Gen:
             op["attrGraphsList"] = [rng.choice(any_g) for _ in range(rng.choice([1, 2]))]  # GRAPHS; may share a graph
         elif r < 0.33:
             op["badAttr"] = True
+        elif not self.extended:
+            pass
+        elif r < 0.4:
+            op["attrPlain"] = True
+        elif r < 0.62:
+            op["via"] = "tape"  # Tape(graph).op / op_multi_out when the arguments can be spelled that way
+            if op["graph"] is not None and rng.random() < 0.25:
+                op["tapeFunc"] = True
         return op
 
     def new_graph(self):
@@ -922,6 +1167,7 @@ class Gen:
         m = rng.choice(
             ["append"] * 4 + ["extend"] * 3 + ["insert"] * 3 + ["pop"] * 2 + ["remove"] * 2 + ["clear"]
             + ["setItem"] * 3 + ["setSlice"] * 3 + ["delItem"] * 2 + ["delSlice"] * 2 + ["reverse", "iadd", "imul"]
+            + (["sort"] * 2 if self.extended else [])
         )
         op = {"op": "io", "g": g, "kind": kind, "m": m}
         if m in ("append",):
@@ -956,6 +1202,9 @@ class Gen:
                     op["vs"] = [one() for _ in range(k)]
         elif m == "imul":
             op["k"] = rng.choice([0, 1, 2])
+        elif m == "sort":
+            # list.sort(key=f, reverse=...): the key function, tabulated by value (few distinct keys: ties -> stability)
+            op.update(keys=[rng.randrange(3) for _ in range(len(real.vals))], rev=rng.random() < 0.4)
         return op
 
     def init(self):
@@ -1004,6 +1253,8 @@ class Gen:
             x = self.node() if self.invalid() else self.addable_node(g)
             return {"op": "append", "g": g, "n": self.node() if x is None else x}
         ns = self.some_nodes(g)
+        if ns and self.extended and rng.random() < 0.15:
+            ns = ns + [rng.choice(ns)]  # the same node listed twice
         if m == "extend":
             return {"op": "extend", "g": g, "ns": ns}
         a = self.node() if self.rng.random() < 0.12 else self.node(lambda n: n.graph is G)
@@ -1024,9 +1275,13 @@ class Gen:
         for _ in range(rng.choice([1, 1, 2, 3])):
             x = self.node() if self.invalid() else self.node(lambda n: n.graph is G)
             ns.append(self.node() if x is None else x)
+        if self.extended and rng.random() < 0.2:
+            ns = ns + [rng.choice(ns)]  # the same node listed twice
         op = {"op": "remove", "g": g, "ns": ns, "safe": rng.random() < 0.6}
         if len(ns) == 1 and rng.random() < 0.5:
             op["single"] = True
+        elif self.extended and rng.random() < 0.5:
+            op["iter"] = True  # a one-shot iterator argument
         return op
 
     def rauw_many(self):
@@ -1114,8 +1369,32 @@ def nesting_acyclic(real: Real, g) -> bool:
     return go(g)
 
 
+MAX_NEST = 80
+
+
+def nest_size(real: Real, g, cap: int = MAX_NEST + 1) -> int:
+    """Number of nodes `RecursiveGraphIterator(g)` yields (a shared graph counts once per path), capped."""
+    n = 0
+
+    def go(graph) -> None:
+        nonlocal n
+        for node in graph:
+            n += 1
+            if n >= cap:
+                return
+            for a in node.attributes.values():
+                subs = [a.value] if a.type.name == "GRAPH" else list(a.value) if a.type.name == "GRAPHS" else []
+                for sg in subs:
+                    go(sg)
+                    if n >= cap:
+                        return
+
+    go(g)
+    return n
+
+
 def gen_op(rng: random.Random, real: Real) -> dict:
-    return Gen(rng, real).op()
+    return Gen(rng, real, extended=True).op()
 
 
 def _unnamed_locked(real: Real, v) -> bool:
@@ -1227,6 +1506,8 @@ def allowed_kinds(op: dict, real: Real, shape: str) -> set[str]:
             ok = {"KeyError"}
         elif m == "add":
             ok = {"TypeError", "ValueError"}
+    elif k == "attrEdit":
+        ok = {"KeyError"}
     elif k == "newNode" and op.get("badAttr"):
         ok = {"TypeError", "ValueError"}
     elif k == "newGraph":
@@ -1296,9 +1577,108 @@ def fail_pos(op: dict, real: Real) -> str:
 
 EMPTY = {"values": [], "nodes": [], "graphs": [], "tensors": []}
 # composite calls for which the model (like the code) keeps the effects of the sub-calls before a rejected one
-NOT_ATOMIC = ("rauwMany", "replaceNodesAndValues")
+NOT_ATOMIC = ("rauwMany", "replaceNodesAndValues", "tapeInitializer", "builderNode")
 # calls that `ir.Function` forwards to its graph
 VIA_FUNCTION = ("io", "append", "extend", "insertAfter", "insertBefore", "remove", "sort", "replaceNodesAndValues")
+
+
+def spelling_tags(op: dict) -> list[str]:
+    """argument spellings the brief names: one-shot iterators, a node listed twice"""
+    k, tags = op["op"], []
+    if k in ("extend", "insertAfter", "insertBefore", "remove"):
+        ns = op.get("ns", [])
+        if len(set(ns)) != len(ns):
+            tags.append(f"{k}:node-listed-twice")
+        if k == "remove" and op.get("iter") and not (op.get("single") and len(ns) == 1):
+            tags.append("remove:one-shot-iterator")
+        if k != "remove" and not (op.get("single") and len(ns) == 1):
+            tags.append(f"{k}:one-shot-iterator")
+    if k == "io" and op["m"] in ("extend", "setSlice"):
+        tags.append(f"io.{op['m']}:one-shot-iterator")
+    return tags
+
+
+def api_of(op: dict, real: "Real") -> list[str]:
+    """The public entry points of /repo a generated call goes through (keys of API_TABLE, `Class.member`)."""
+    k = op["op"]
+    via = op.get("via")
+    F = via == "function"
+    if k == "newValue" or k == "newValueProd":
+        return ["Value.__init__"]
+    if k == "setConst" or k == "clearConst":
+        return ["Value.const_value"]
+    if k == "newNode":
+        sp = tape_spelling(op)
+        if sp in ("op", "op-output"):
+            return ["Tape.op", "Tape.__init__"]
+        if sp is not None:
+            return ["Tape.op_multi_out", "Tape.__init__"]
+        return ["Node.__init__", "Attributes.__init__"]
+    if k == "newGraph":
+        return ["Graph.__init__", "GraphInputs.__init__", "GraphOutputs.__init__", "GraphInitializers.__init__"]
+    if k == "replaceInput":
+        return ["Node.replace_input_with"]
+    if k == "resizeInputs":
+        return ["Node.resize_inputs"]
+    if k == "resizeOutputs":
+        return ["Node.resize_outputs"]
+    if k == "rauw":
+        return ["Value.replace_all_uses_with"]
+    if k == "setName":
+        return ["Value.name"]
+    if k == "setNodeName":
+        return ["Node.name"]
+    if k == "setOpType":
+        return ["Node.op_type"]
+    if k == "io":
+        cls = "GraphInputs" if op["kind"] == "inp" else "GraphOutputs"
+        member = {"setItem": "__setitem__", "setSlice": "__setitem__", "delItem": "__delitem__",
+                  "delSlice": "__delitem__", "iadd": "__iadd__", "imul": "__imul__"}.get(op["m"], op["m"])
+        return [f"{cls}.{member}", ("Function." if F else "Graph.") + ("inputs" if op["kind"] == "inp" else "outputs")]
+    if k == "init":
+        m = op["m"]
+        if m == "register":
+            return ["Graph.register_initializer", "GraphInitializers.add"]
+        member = {"setItem": "__setitem__", "delItem": "__delitem__"}.get(m, m)
+        if m == "update" and op.get("ior"):
+            member = "__ior__"
+        return [f"GraphInitializers.{member}", "Graph.initializers"]
+    if k == "append":
+        return ["Function.append" if F else "Graph.append"]
+    if k == "extend":
+        return ["Function.extend" if F else "Graph.extend"]
+    if k in ("insertAfter", "insertBefore"):
+        if via == "node" and real.nodes[op["a"]].graph is real.graphs[op["g"]]:
+            return ["Node.append" if k == "insertAfter" else "Node.prepend"]
+        name = "insert_after" if k == "insertAfter" else "insert_before"
+        return [("Function." if F else "Graph.") + name]
+    if k == "remove":
+        return ["Function.remove" if F else "Graph.remove"]
+    if k == "sort":
+        return ["Function.sort" if F else "Graph.sort"]
+    if k == "attrEdit":
+        sp = op.get("spell")
+        if op.get("graphs") is not None or op.get("graph") is not None or op.get("plain"):
+            key_present = op["key"] in real.nodes[op["n"]].attributes
+            member = {"add": "add", "update": "update", "ior": "__ior__"}.get(sp)
+            if sp == "setdefault" and not key_present:
+                member = "setdefault"
+            return ["Attributes." + (member or "__setitem__"), "Node.attributes"]
+        if op.get("clear"):
+            return ["Attributes.clear", "Node.attributes"]
+        member = {"popitem": "popitem", "del": "__delitem__"}.get(sp, "pop")
+        return ["Attributes." + member, "Node.attributes"]
+    if k == "rauwMany":
+        return ["convenience.replace_all_uses_with"]
+    if k == "renameValues":
+        return ["convenience.rename_values"]
+    if k == "replaceNodesAndValues":
+        return ["convenience.replace_nodes_and_values"]
+    if k == "tapeInitializer":
+        return ["Tape.initializer", "Tape.__init__"]
+    if k == "builderNode":
+        return ["Builder.__getattr__", "Builder.__init__"]
+    return []
 
 
 def run_one(
@@ -1313,20 +1693,34 @@ def run_one(
     """Generate and execute one history on the real objects; evaluate both oracles after every call.
     Returns {"ops", "outcomes", "deltas"} truncated at the first oracle failure (the state is then outside
     the invariant and nothing after it is meaningful)."""
-    real = Real()
+    real = Real(model_sort=True)
     if keep is not None:
         keep.append(real)  # keep earlier instances alive so that fresh objects get fresh addresses
-    gen = Gen(rng, real, p_invalid)
+    gen = Gen(rng, real, p_invalid, extended=True)
     ops, mops, outcomes, deltas = [], [], [], []
     prev = EMPTY
     n = len(fixed_ops) if fixed_ops is not None else length
     for step in range(n):
         op = fixed_ops[step] if fixed_ops is not None else gen.op()
+        if op["op"] == "sort" and not nesting_acyclic(real, real.graphs[op["g"]]):
+            # a graph nested in itself: the library's recursive traversal does not terminate (outside the alphabet)
+            part.count("skipped=sort-on-cyclic-nest")
+            op = {"op": "newValue", "name": None}
+        elif op["op"] == "sort" and nest_size(real, real.graphs[op["g"]]) > MAX_NEST:
+            # graphs shared along many paths: the traversal lists a node once per path (exponential in the depth)
+            part.count("skipped=sort-on-huge-shared-nest")
+            op = {"op": "newValue", "name": None}
         shape = shape_of(op, real)
         label = op["op"] + ("." + op["kind"] + "." + op["m"] if op["op"] == "io" else "." + op["m"] if op["op"] == "init" else "")
         before = deep_snapshot(real)
+        counts0 = (len(real.vals), len(real.nodes), len(real.graphs))
         pos = fail_pos(op, real)
+        apis = api_of(op, real)
         o, kind, mop = real.apply(op)
+        for a in apis:
+            part.count(f"api={a}")
+        for tag in spelling_tags(op):
+            part.count(f"spelling={tag}")
         if fixed_ops is None:
             gen.after(op, o)
         if step < prelude:
@@ -1355,7 +1749,8 @@ def run_one(
             )
             failed = True
         if o == "raised":
-            after = deep_snapshot(real)
+            # objects a rejected composite call created on the way (Tape.initializer) are not "changed" objects
+            after = deep_snapshot(real, counts0)
             if after != before:
                 part.fail(
                     f"C06|{sig}",
@@ -1436,6 +1831,9 @@ def compare_with_model(ctx, hists: list[dict]) -> None:
                     {"ops": ops[: i + 1]},
                 )
                 break
+            if "sortWF" in st:
+                # hypothesis of C01_sort_step (C12's well-formedness of the tree the model read off its world)
+                ctx.count(f"hyp:C01_sort_step.SortWF={str(st['sortWF']).lower()}:{st['o']}")
             if st["o"] != o:
                 ctx.disagree(f"outcome differs at step {i} ({op['op']})", {"ops": ops[: i + 1]}, st["o"], o)
                 break
@@ -1571,6 +1969,39 @@ def small_alphabet(reduced: bool = False) -> list[dict]:
         {"op": "newGraph", "inputs": [2], "outputs": [], "nodes": [], "inits": []},
         {"op": "attrEdit", "n": 0, "key": "body0", "graph": 1},
         {"op": "attrEdit", "n": 1, "key": "branches", "graphs": [1, 1]},
+        {"op": "attrEdit", "n": 0, "key": "then", "graph": 1, "spell": "add"},
+        {"op": "attrEdit", "n": 0, "key": "alpha", "plain": True, "spell": "update"},
+        {"op": "attrEdit", "n": 0, "key": "body0", "graphs": [1], "spell": "setdefault"},
+        {"op": "attrEdit", "n": 0, "key": "body0", "graphs": [1, 1], "spell": "ior"},
+        {"op": "attrEdit", "n": 0, "key": "body0", "spell": "del"},
+        {"op": "attrEdit", "n": 0, "key": "body0", "spell": "pop"},
+        {"op": "attrEdit", "n": 0, "key": "body0", "spell": "pop-default"},
+        {"op": "attrEdit", "n": 0, "key": "", "spell": "popitem"},
+        {"op": "attrEdit", "n": 0, "key": "", "clear": True},
+        {"op": "setNodeName", "n": 0, "s": "m"},
+        {"op": "setNodeName", "n": 0, "s": None},
+        {"op": "setNodeName", "n": 2, "s": "node_Id_0"},
+        {"op": "setOpType", "n": 2, "s": "Mul"},
+        {"op": "clearConst", "v": 1},
+        {"op": "io", "g": 0, "kind": "inp", "m": "sort", "keys": [1, 0, 0, 0, 0, 0, 0, 0, 0, 0, 0, 0], "rev": False},
+        {"op": "io", "g": 0, "kind": "out", "m": "sort", "keys": [1, 0, 1, 0, 0, 1, 0, 0, 0, 0, 0, 0], "rev": True},
+        {"op": "newNode", "opType": "Id", "name": None, "inputs": [3], "numOutputs": None, "outputs": None, "graph": 1, "via": "tape"},
+        {"op": "newNode", "opType": "Id", "name": None, "inputs": [0], "numOutputs": None, "outputs": [2], "graph": 0, "via": "tape", "tapeFunc": True},
+        {"op": "newNode", "opType": "Id", "name": "k", "inputs": [], "numOutputs": 2, "outputs": None, "graph": 1, "via": "tape"},
+        {"op": "newNode", "opType": "Id", "name": None, "inputs": [], "numOutputs": None, "outputs": [2, 0], "graph": None, "via": "tape"},
+        {"op": "tapeInitializer", "g": 0, "name": "c", "tname": None},
+        {"op": "tapeInitializer", "g": 0, "name": "b", "tname": None},
+        {"op": "tapeInitializer", "g": 1, "name": None, "tname": "b", "locked": True},
+        {"op": "tapeInitializer", "g": 0, "name": None, "tname": None},
+        {"op": "tapeInitializer", "g": 1, "name": "", "tname": "", "func": True},
+        {"op": "builderNode", "g": 1, "opType": "Add", "inputs": [0, 3], "k": 1, "names": ["o"]},
+        {"op": "builderNode", "g": 0, "opType": "Mul", "inputs": [4], "k": 2, "names": None, "func": True},
+        {"op": "builderNode", "g": None, "opType": "Id", "inputs": [None], "k": 2, "names": ["a", "val_0"]},
+        {"op": "remove", "g": 0, "ns": [1, 1], "safe": False, "iter": True},
+        {"op": "extend", "g": 0, "ns": [0, 0]},
+        {"op": "insertAfter", "g": 0, "a": 1, "ns": [0, 0]},
+        {"op": "sort", "g": 1},
+        {"op": "sort", "g": 0, "via": "function"},
         {"op": "newValueProd", "n": 0, "i": 0, "name": None},
         {"op": "append", "g": 1, "n": 1, "via": "function"},
         {"op": "io", "g": 1, "kind": "out", "m": "append", "v": 5, "via": "function"},
@@ -1802,6 +2233,25 @@ def sort_scenarios() -> list[list[dict]]:
                {"op": "resizeOutputs", "n": 3, "k": 2}]
             + [{"op": "setConst", "v": 5 + pad, "locked": True}, {"op": "sort", "g": 1}]
         )
+    # one Graph object reachable through two attributes (outside the hypothesis of C01_sort_step: C12's tree is not
+    # well formed): a shared non-empty graph makes sort() raise, a shared EMPTY graph does not; then the sharing is
+    # removed by an attribute edit and the same sort succeeds and re-orders the child
+    for shared_nodes in ([1, 0], []):
+        out.append(
+            [val("x"), node([0], "a"), node([1], "b"), graph(shared_nodes)]
+            + [node([], "o1", attr=[0]), node([], "o2", attr=[0]), graph([3, 2])]
+            + [{"op": "sort", "g": 1}, {"op": "attrEdit", "n": 3, "key": "body0", "spell": "del"}, {"op": "sort", "g": 1},
+               {"op": "attrEdit", "n": 2, "key": "body0", "graphs": [0, 0]}, {"op": "sort", "g": 1},
+               {"op": "attrEdit", "n": 2, "key": "body0", "clear": True}, {"op": "sort", "g": 1}, {"op": "sort", "g": 0}]
+        )
+    # the order of a node's attribute dict decides the traversal order: two children, edited positions
+    out.append(
+        [val("x"), node([0], "a"), node([1], "b"), graph([1, 0]), node([None], "c"), node([3], "d"), graph([3, 2])]
+        + [node([], "o", attr=[0])]
+        + [{"op": "attrEdit", "n": 4, "key": "else", "graph": 1, "spell": "add"}, graph([4]),
+           {"op": "setNodeName", "n": 1, "s": None}, {"op": "sort", "g": 2},
+           {"op": "attrEdit", "n": 4, "key": "body0", "spell": "pop"}, {"op": "sort", "g": 2}]
+    )
     return out
 
 
@@ -1811,7 +2261,9 @@ def run_sort_scenarios(ctx, prop: str, procs: int = 16) -> str:
     for part in pmap(_sort_worker, jobs, procs):
         split_failures(part, prop)
         ctx.merge(part)
-    return f"{len(hs)} nested-graph sort histories (3 shapes x 2 allocation orders x 6 paddings + 6 with a naming failure in the root)"
+    return (f"{len(hs)} nested-graph sort histories (3 shapes x 2 allocation orders x 6 paddings + 6 with a naming failure "
+            "in the root + 2 with a Graph object shared by two attributes + 1 with edited attribute order); the model "
+            "computes every sort itself (C12's sortModel on the tree read off the model state)")
 
 
 _KEEP_ALIVE: list = []
@@ -1833,3 +2285,394 @@ def replay_ops(ctx, prop: str, ops: list) -> None:
     split_failures(part, prop)
     ctx.merge(part)
     compare_with_model(ctx, [h])
+
+
+# --------------------------------------------------------------------------- alphabet completeness (checked)
+#
+# Every public member of the classes / modules below is classified here:
+#   M(op)      a mutator mapped to the model operation(s) `op`; exercised >= ALPHABET_MIN times per run (counted
+#              under `api=<Class.member>`), otherwise the run reports a broken correspondence
+#   O(reason)  public and able to change IR state, but OUTSIDE the modelled alphabet, with the reason
+#   Q(reason)  not a mutator of IR state (query / accessor / constructor of an unrelated object); the zero-argument
+#              ones are called on a populated state on every run and must leave the deep snapshot unchanged
+#   F(id, ..)  outside the alphabet because of a recorded finding (see proposed_fixes/<id>.md)
+# `settable` records whether the member can be assigned (property with a setter / slot): a member that becomes
+# settable, a new public member, or a member that disappears is reported (`ctx.disagree`), never ignored.
+
+
+def M(op, settable=False):
+    return ("model", op, settable)
+
+
+def O(reason, settable=False):
+    return ("outside", reason, settable)
+
+
+def Q(reason="query", settable=False):
+    return ("query", reason, settable)
+
+
+def F(fid, reason, settable=False):
+    return ("finding", f"{fid}: {reason}", settable)
+
+
+_NOT_KERNEL = "writes a field that is not part of the kernel state (no use-def / ownership link reads it)"
+_SEQ_Q = "Sequence protocol on the node container (read-only)"
+_IO_UNSUPPORTED = "always raises RuntimeError (`_unimplemented`); nothing is touched"
+
+API_TABLE: dict[str, tuple] = {}
+
+
+def _tbl(cls: str, **members):
+    for k, v in members.items():
+        API_TABLE[f"{cls}.{k}"] = v
+
+
+_tbl(
+    "Graph",
+    __init__=M("newGraph"), append=M("append"), extend=M("extend"), insert_after=M("insertAfter"),
+    insert_before=M("insertBefore"), remove=M("remove"), sort=M("sort"), register_initializer=M("init.register"),
+    inputs=M("io inp (the tracked list; see GraphInputs)"), outputs=M("io out (the tracked list; see GraphOutputs)"),
+    initializers=M("init (the tracked mapping; see GraphInitializers)"),
+    name=O(_NOT_KERNEL, True), doc_string=O(_NOT_KERNEL, True),
+    opset_imports=O("returns the plain dict of opset imports: " + _NOT_KERNEL),
+    meta=O("metadata store: " + _NOT_KERNEL), metadata_props=O("plain dict: " + _NOT_KERNEL),
+    all_nodes=Q(), clone=Q("builds new objects (C13); the original is only read"), count=Q(_SEQ_Q), index=Q(_SEQ_Q),
+    display=Q("prints"), node=Q(), num_nodes=Q(), subgraphs=Q(),
+    __contains__=Q(_SEQ_Q), __getitem__=Q(_SEQ_Q), __iter__=Q(_SEQ_Q), __len__=Q(_SEQ_Q), __reversed__=Q(_SEQ_Q),
+)
+_tbl(
+    "Function",
+    __init__=Q("wraps an existing graph; writes no value / node / graph record"),
+    append=M("append"), extend=M("extend"), insert_after=M("insertAfter"), insert_before=M("insertBefore"),
+    remove=M("remove"), sort=M("sort"),
+    inputs=M("io inp (graph.inputs of the wrapped graph)"), outputs=M("io out (graph.outputs of the wrapped graph)"),
+    attributes=O("attribute *definitions* of the function (an Attributes dict owned by the function): " + _NOT_KERNEL),
+    name=O(_NOT_KERNEL, True), domain=O(_NOT_KERNEL, True), overload=O(_NOT_KERNEL, True),
+    doc_string=O("forwards to graph.doc_string: " + _NOT_KERNEL, True),
+    opset_imports=O(_NOT_KERNEL), meta=O(_NOT_KERNEL), metadata_props=O(_NOT_KERNEL),
+    graph=Q("the wrapped graph"), identifier=Q(), all_nodes=Q(), clone=Q("builds new objects (C13)"), count=Q(_SEQ_Q),
+    index=Q(_SEQ_Q), display=Q("prints"), subgraphs=Q(),
+    __contains__=Q(_SEQ_Q), __getitem__=Q(_SEQ_Q), __iter__=Q(_SEQ_Q), __len__=Q(_SEQ_Q), __reversed__=Q(_SEQ_Q),
+)
+_GV = ("a GraphView stores plain tuples / a plain dict and never writes to a value, node or graph record (creating a "
+       "view or assigning its slots changes no ownership); checked on every run: `graphview-frame`")
+_tbl(
+    "GraphView",
+    __init__=O(_GV), inputs=O(_GV, True), outputs=O(_GV, True), initializers=O(_GV, True), nodes=O(_GV, True),
+    name=O(_GV, True), doc_string=O(_GV, True), opset_imports=O(_GV, True), meta=O(_NOT_KERNEL),
+    metadata_props=O(_NOT_KERNEL), clone=Q("builds new objects (C13)"), count=Q(_SEQ_Q), index=Q(_SEQ_Q),
+    display=Q("prints"),
+    __contains__=Q(_SEQ_Q), __getitem__=Q(_SEQ_Q), __iter__=Q(_SEQ_Q), __len__=Q(_SEQ_Q), __reversed__=Q(_SEQ_Q),
+)
+_tbl(
+    "Node",
+    __init__=M("newNode"), append=M("insertAfter (via=node)"), prepend=M("insertBefore (via=node)"),
+    replace_input_with=M("replaceInput"), resize_inputs=M("resizeInputs"), resize_outputs=M("resizeOutputs"),
+    name=M("setNodeName", True), op_type=M("setOpType", True),
+    attributes=M("attrSet / attrDel / attrClear (the attribute dict; see Attributes)"),
+    graph=O("the raw `Node.graph = x` setter is the mechanism Graph.append / remove use, not an editing call: assigning "
+            "it directly desynchronises node and container by construction (DESIGN 4.1)", True),
+    inputs=Q("the setter always raises AttributeError", True), outputs=Q("the setter always raises AttributeError", True),
+    domain=O(_NOT_KERNEL, True), overload=O(_NOT_KERNEL, True), version=O(_NOT_KERNEL, True),
+    doc_string=O(_NOT_KERNEL, True), device_configurations=O("device annotations: C19's state, " + _NOT_KERNEL, True),
+    shard=O("device annotations (C19)"), set_pipeline_stage=O("device annotations (C19)"),
+    meta=O(_NOT_KERNEL), metadata_props=O(_NOT_KERNEL),
+    display=Q("prints"), op_identifier=Q(), predecessors=Q(), successors=Q(), sharding_of=Q(),
+)
+_ARITH = "arithmetic magic method: forwards to the user-installed handler (none installed: TypeError / NotImplemented)"
+_tbl(
+    "Value",
+    __init__=M("newValue (Value(producer=, index=): known finding D87)"), name=M("setName", True),
+    const_value=M("setConst / clearConst", True), replace_all_uses_with=M("rauw"),
+    type=O(_NOT_KERNEL, True), dtype=O(_NOT_KERNEL, True), shape=O(_NOT_KERNEL, True), doc_string=O(_NOT_KERNEL, True),
+    merge_shapes=O(_NOT_KERNEL), meta=O(_NOT_KERNEL), metadata_props=O(_NOT_KERNEL),
+    graph=Q(), consumers=Q(), display=Q("prints"), index=Q(), is_graph_input=Q(), is_graph_output=Q(),
+    is_initializer=Q(), producer=Q(), uses=Q(),
+    __add__=Q(_ARITH), __mul__=Q(_ARITH), __neg__=Q(_ARITH), __radd__=Q(_ARITH), __rmul__=Q(_ARITH),
+    __rsub__=Q(_ARITH), __rtruediv__=Q(_ARITH), __sub__=Q(_ARITH), __truediv__=Q(_ARITH),
+)
+for _cls in ("GraphInputs", "GraphOutputs"):
+    _tbl(
+        _cls,
+        __init__=M("newGraph (only Graph(...) constructs it)"),
+        append=M("io append"), extend=M("io extend"), insert=M("io insert"), pop=M("io pop"), remove=M("io remove"),
+        clear=M("io clear"), reverse=M("io reverse"), sort=M("io sort"), __setitem__=M("io setItem / setSlice"),
+        __delitem__=M("io delItem / delSlice"), __iadd__=M("io iadd (always RuntimeError)"),
+        __imul__=M("io imul (always RuntimeError)"),
+        copy=Q("returns a plain list of the same values"), count=Q(), index=Q(),
+        __add__=Q(_IO_UNSUPPORTED), __radd__=Q(_IO_UNSUPPORTED), __mul__=Q(_IO_UNSUPPORTED), __rmul__=Q(_IO_UNSUPPORTED),
+        __contains__=Q(), __getitem__=Q("returns the element / a plain list"), __iter__=Q(), __len__=Q(), __reversed__=Q(),
+        __copy__=F("D421", "copy.copy(graph.inputs) (UserList.__copy__) is a second tracked list on the SAME graph that "
+                   "shares the reference counter: editing the copy clears ownership flags of values the graph still lists"),
+    )
+_tbl(
+    "GraphInitializers",
+    __init__=M("newGraph (only Graph(...) constructs it)"),
+    __setitem__=M("init setItem"), __delitem__=M("init delItem"), add=M("init add"), pop=M("init pop"),
+    popitem=M("init popitem"), clear=M("init clear"), update=M("init update"), setdefault=M("init setdefault"),
+    __ior__=M("init update (ior)"),
+    copy=F("D420", "initializers.copy() (UserDict.copy) returns a second TRACKED mapping bound to the same graph: "
+           "popping / clearing the copy clears is_initializer / the owning graph of values the graph still stores"),
+    __copy__=F("D420", "copy.copy(initializers): same aliasing tracked mapping"),
+    __or__=F("D422", "initializers | {...} builds GraphInitializers(<the merged dict>): an object whose `_graph` is a dict; "
+             "storing into it flags the value as initializer of that dict and then raises AttributeError"),
+    __ror__=F("D422", "same as __or__"),
+    fromkeys=Q("classmethod; always TypeError (the constructor needs a graph)"),
+    get=Q(), get_tensor=Q(), items=Q(), keys=Q(), values=Q(), tensors=Q(), tensor_items=Q(),
+    __contains__=Q(), __getitem__=Q(), __iter__=Q(), __len__=Q(), __reversed__=Q(),
+)
+_tbl(
+    "Attributes",
+    __init__=M("newNode attrs (the dict a node is created with)"),
+    __setitem__=M("attrSet"), add=M("attrSet"), update=M("attrSet"), setdefault=M("attrSet (absent key)"),
+    __ior__=M("attrSet"), __delitem__=M("attrDel strict"), pop=M("attrDel"),
+    popitem=M("attrDel strict (FIRST key: MutableMapping.popitem)"),
+    clear=M("attrClear"),
+    copy=Q("an Attributes dict tracks nothing: the copy is an independent dict with the same owner"),
+    __copy__=Q("same as copy"), __or__=Q("always TypeError (constructor needs an owner)"), __ror__=Q("same as __or__"),
+    fromkeys=Q("classmethod; always TypeError"),
+    get=Q(), get_float=Q(), get_floats=Q(), get_graph=Q(), get_graphs=Q(), get_int=Q(), get_ints=Q(), get_string=Q(),
+    get_strings=Q(), get_tensor=Q(), get_tensors=Q(), items=Q(), keys=Q(), values=Q(),
+    __contains__=Q(), __getitem__=Q(), __iter__=Q(), __len__=Q(), __reversed__=Q(),
+)
+_tbl(
+    "Tape",
+    __init__=M("(binds the graph the nodes go to)"), op=M("newNode (graph=tape.graph_like)"),
+    op_multi_out=M("newNode (graph=tape.graph_like)"), initializer=M("tapeInitializer"),
+    initializers=Q(), nodes=Q(), used_opsets=Q(),
+)
+_tbl(
+    "Builder",
+    __init__=M("(binds the graph the nodes go to)"), __getattr__=M("builderNode"),
+    op=M("newNode: inherited from Tape, counted there"), op_multi_out=M("newNode: inherited from Tape, counted there"),
+    initializer=M("tapeInitializer: inherited from Tape, counted there"),
+    initializers=Q(), nodes=Q(), used_opsets=Q(),
+)
+_tbl(
+    "convenience",
+    replace_all_uses_with=M("rauwMany"), rename_values=M("renameValues"),
+    replace_nodes_and_values=M("replaceNodesAndValues"),
+    convert_attribute=Q("builds an Attr"), convert_attributes=Q("builds Attrs"), create_value_mapping=Q(),
+    get_const_tensor=O("may set value.shape / value.dtype from the constant it finds: " + _NOT_KERNEL),
+    extract=Q("builds a new graph from clones (C18); the source is only read"),
+)
+_tbl("tape", Tape=M("see Tape"))
+
+# members inherited by Builder / counted through another key
+_COUNT_ALIAS = {"Builder.op": "Tape.op", "Builder.op_multi_out": "Tape.op_multi_out", "Builder.initializer": "Tape.initializer",
+                "tape.Tape": "Tape.__init__"}
+ALPHABET_MIN = 20
+
+_DUNDER_IGNORE = {
+    "__dict__", "__weakref__", "__module__", "__doc__", "__slots__", "__annotations__", "__abstractmethods__",
+    "__orig_bases__", "__parameters__", "__class_getitem__", "__protocol_attrs__", "__non_callable_proto_members__",
+    "__callable_proto_members_only__", "__firstlineno__", "__static_attributes__", "__subclasshook__",
+    "__init_subclass__", "__hash__", "__annotate_func__", "__annotations_cache__",
+}
+
+
+def introspect_public() -> dict[str, bool]:
+    """`Class.member` -> settable, for every public member of the real classes / modules (dunders that `object`
+    does not define included)."""
+    import inspect
+
+    import onnx_ir as ir
+    import onnx_ir.convenience as conv
+    import onnx_ir.tape as tape_mod
+    from onnx_ir import _graph_containers as gc
+    from onnx_ir import _tape
+
+    found: dict[str, bool] = {}
+    base = set(dir(object)) - {"__init__"}
+    classes = {
+        "Graph": ir.Graph, "Function": ir.Function, "GraphView": ir.GraphView, "Node": ir.Node, "Value": ir.Value,
+        "GraphInputs": gc.GraphInputs, "GraphOutputs": gc.GraphOutputs, "GraphInitializers": gc.GraphInitializers,
+        "Attributes": gc.Attributes, "Tape": _tape.Tape, "Builder": _tape.Builder,
+    }
+    for cname, cls in classes.items():
+        for name in dir(cls):
+            if name.startswith("__") and name.endswith("__"):
+                if name in base or name in _DUNDER_IGNORE:
+                    continue
+            elif name.startswith("_"):
+                continue
+            a = inspect.getattr_static(cls, name)
+            settable = (isinstance(a, property) and a.fset is not None) or type(a).__name__ == "member_descriptor"
+            found[f"{cname}.{name}"] = settable
+    for name in conv.__all__:
+        found[f"convenience.{name}"] = False
+    for name in tape_mod.__all__:
+        found[f"tape.{name}"] = False
+    return found
+
+
+def _query_probe() -> list[str]:
+    """Call the zero-argument members classified `Q` (and read the `Q` properties) on a populated state and make
+    sure nothing changed; also the GraphView frame (constructing a view / assigning its slots writes nothing)."""
+    import inspect
+
+    import onnx_ir as ir
+
+    real = Real()
+    part = Part()
+    run = [dict(o) for o in PRELUDE] + [
+        {"op": "attrEdit", "n": 0, "key": "body0", "graph": 1},
+        {"op": "io", "g": 1, "kind": "out", "m": "append", "v": 5},
+    ]
+    for op in run:
+        real.apply(op)
+    del part
+    bad: list[str] = []
+    before = deep_snapshot(real)
+    targets = {
+        "Graph": real.graphs[0], "Function": real.GF({"g": 0, "via": "function"}), "Node": real.nodes[0],
+        "Value": real.vals[3], "GraphInputs": real.graphs[0].inputs, "GraphOutputs": real.graphs[0].outputs,
+        "GraphInitializers": real.graphs[0].initializers, "Attributes": real.nodes[0].attributes,
+    }
+    before = deep_snapshot(real)  # after the Function wrapper exists
+    called = 0
+    for key, (kind, _why, _s) in API_TABLE.items():
+        cname, member = key.split(".", 1)
+        if kind != "query" or cname not in targets or member in ("display", "clone", "__init__"):
+            continue
+        obj = targets[cname]
+        try:
+            a = inspect.getattr_static(type(obj), member)
+            if isinstance(a, property):
+                getattr(obj, member)
+            else:
+                fn = getattr(obj, member)
+                sig = inspect.signature(fn)
+                if any(p.default is p.empty and p.kind in (p.POSITIONAL_ONLY, p.POSITIONAL_OR_KEYWORD)
+                       for p in sig.parameters.values()):
+                    continue
+                r = fn()
+                if inspect.isgenerator(r) or hasattr(r, "__next__"):
+                    list(r)
+            called += 1
+        except Exception:  # noqa: BLE001 - a query may reject being called like this; it must still change nothing
+            called += 1
+        if deep_snapshot(real) != before:
+            bad.append(f"{key} is classified as a query but changed the state")
+            before = deep_snapshot(real)
+    # GraphView frame
+    g0 = real.graphs[0]
+    view = ir.GraphView(list(g0.inputs), list(g0.outputs), nodes=list(g0), initializers=list(g0.initializers.values()))
+    view.inputs = ()
+    view.outputs = tuple(real.vals[:2])
+    view.initializers = {}
+    view.nodes = ()
+    view.name = "v"
+    if deep_snapshot(real) != before:
+        bad.append("GraphView construction / slot assignment changed the state of the viewed objects (graphview-frame)")
+    return bad + ([] if called >= 30 else [f"query probe reached only {called} members"])
+
+
+PENDING_FINDINGS = {
+    # id -> (signature, what, scenario): failing inputs of findings of this round; reported through ctx.fail as soon
+    # as known_findings.json mentions the id (known: KNOWN-FINDING, fixed: a regression), listed as pending before
+    "D420": ("alias:GraphInitializers.copy",
+             "g.initializers.copy().pop(k) clears is_initializer / the owning graph of a value g.initializers still stores"),
+    "D421": ("alias:GraphIO.__copy__",
+             "copy.copy(g.inputs).pop() clears is_graph_input of a value g.inputs still lists (shared reference counter)"),
+    "D422": ("alias:GraphInitializers.__or__",
+             "(g.initializers | {})[k] = v flags v as initializer of a dict object and raises AttributeError"),
+}
+
+
+def _alias_probe() -> dict[str, bool]:
+    """Does the failing input of each pending finding still fail on the real code?"""
+    import copy as _copy
+
+    import numpy as np
+
+    import onnx_ir as ir
+
+    res = {}
+
+    def fresh():
+        w = ir.Value(name="w", const_value=ir.Tensor(np.array([1.0], dtype=np.float32)))
+        a = ir.Value(name="a")
+        return ir.Graph([a], [], nodes=[], initializers=[w]), a, w
+
+    g, a, w = fresh()
+    try:
+        c = g.initializers.copy()
+        if hasattr(c, "pop"):
+            c.pop("w")
+    except Exception:  # noqa: BLE001
+        pass
+    res["D420"] = not (w.is_initializer() and w.graph is g and g.initializers.get("w") is w)
+    g, a, w = fresh()
+    try:
+        c = _copy.copy(g.inputs)
+        c.pop()
+    except Exception:  # noqa: BLE001
+        pass
+    res["D421"] = not (a.is_graph_input() and a.graph is g and a in list(g.inputs))
+    g, a, w = fresh()
+    v = ir.Value(name="k")
+    try:
+        m = g.initializers | {}
+        m["k"] = v
+    except Exception:  # noqa: BLE001
+        pass
+    res["D422"] = v.is_initializer() or v._graph is not None
+    return res
+
+
+def check_alphabet(ctx, prop: str) -> None:
+    """The alphabet tie: introspected public surface == API_TABLE, mapped entries exercised, queries are queries."""
+    from harness.common import load_known
+
+    found = introspect_public()
+    for key in sorted(set(found) - set(API_TABLE)):
+        ctx.disagree(
+            f"alphabet: public member {key} of /repo is neither mapped to a model operation nor listed as outside "
+            "the alphabet (harness/kernel_ops.py API_TABLE)", {"member": key, "settable": found[key]})
+    for key in sorted(set(API_TABLE) - set(found)):
+        ctx.disagree(f"alphabet: API_TABLE lists {key}, which /repo no longer has", {"member": key})
+    for key in sorted(set(found) & set(API_TABLE)):
+        if found[key] != API_TABLE[key][2]:
+            ctx.disagree(
+                f"alphabet: {key} is {'now' if found[key] else 'no longer'} assignable (setter / slot); API_TABLE says otherwise",
+                {"member": key})
+    table = {}
+    for key, (kind, detail, _s) in sorted(API_TABLE.items()):
+        row = {"class": kind, "detail": detail}
+        if kind == "model":
+            n = ctx.dist.get("api=" + _COUNT_ALIAS.get(key, key), 0)
+            row["exercised"] = n
+            if n < ALPHABET_MIN:
+                ctx.disagree(
+                    f"alphabet: {key} is mapped to the model ({detail}) but was exercised only {n} times in this run "
+                    f"(minimum {ALPHABET_MIN})", {"member": key})
+        table[key] = row
+    ctx.extra["alphabet"] = {
+        "members": len(table),
+        "mapped": sum(1 for r in table.values() if r["class"] == "model"),
+        "outside": sum(1 for r in table.values() if r["class"] == "outside"),
+        "query": sum(1 for r in table.values() if r["class"] == "query"),
+        "finding": sum(1 for r in table.values() if r["class"] == "finding"),
+        "min_exercised": ALPHABET_MIN,
+        "table": table,
+    }
+    for msg in _query_probe():
+        ctx.disagree("alphabet: " + msg, {})
+    # findings of this round
+    known = load_known()
+    mentioned = {e.get("id") for e in known.get("known", []) + known.get("fixed", []) if e.get("property") == prop}
+    still = _alias_probe()
+    pending = []
+    for fid, (sig, what) in PENDING_FINDINGS.items():
+        if not still[fid]:
+            continue  # repaired: the member is a plain copy now
+        if fid in mentioned:
+            if prop == "C01":
+                ctx.fail(sig, what, {"finding": fid})
+        else:
+            pending.append(f"{fid} [{sig}] {what}")
+    if pending:
+        ctx.extra["pending_findings"] = pending
+        ctx.notes.append("PENDING-FINDING (not yet in known_findings.json; proposed_fixes/D420-D422.md): " + "; ".join(pending))
